@@ -47,7 +47,8 @@ NoSchemaChange(st) == st.err = "nil" /\ st.ddl = <<>>
 \* added fields that carry a check constraint; the data rule below still applies.
 HasCheck(f) == \E i \in DOMAIN f.tags : Len(f.tags[i]) >= 6 /\ SubSeq(f.tags[i], 1, 6) = "check:"
 \* (the same holds for a foreign key constraint an added relation brings, unless constraints are disabled)
-RebuildAllowed(e) == (\E i \in DOMAIN e.added : HasCheck(e.added[i])) \/ e.fk
+\* (... and for a unique constraint the second version adds to an existing column)
+RebuildAllowed(e) == (\E i \in DOMAIN e.added : HasCheck(e.added[i])) \/ e.fk \/ e.added_unique_on # ""
 RelTables(e) == {e.reltables[i] : i \in DOMAIN e.reltables}
 OnlyAdditions(e, st) ==
   /\ st.err = "nil"
@@ -63,8 +64,10 @@ DataKept(e) == /\ StepOf(e, "m1again").dump = StepOf(e, "insert").dump
                /\ Len(StepOf(e, "insert").dump) = 3
 \* the named (composite) indexes of the model exist with the uniqueness and the partial condition their
 \* members declare, whichever member declares them
+\* ... and every column the model declares unique is unique in the final schema
 ShapeOK(e) == /\ \A i \in DOMAIN e.want_indexes : \E j \in DOMAIN e.final_indexes : e.final_indexes[j] = e.want_indexes[i]
               /\ Len(e.final_indexes) = Len(e.want_indexes)
+              /\ \A i \in DOMAIN e.want_unique : \E j \in DOMAIN e.final_unique : e.final_unique[j] = e.want_unique[i]
 HistoryOK(e) ==
   [shape  |-> ShapeOK(e),
    setup  |-> StepOf(e, "m1").err = "nil" /\ StepOf(e, "insert").err = "nil",
